@@ -223,9 +223,10 @@ CLAIMED = {
              "node the elaborated expression computes it), C02_assignment (integer <-> fixed conversion drops the fraction), C02_stored (the generated code "
              "stores it: C01's theorem instantiated); C02_refuted_negative documents the open finding. Tie: the REAL generator's code for random statements "
              "mixing x variables, x registers, integer variables, integer and decimal constants (incl. 0.29, 0.57, 1.15) with + - * / // % runs in the "
-             "kernel-validated Coq ISA model; the stored value must equal the model's (all cases) and exact Fraction arithmetic (inside the precondition).",
-        note=TB + "Partial: the elaboration model is hand-written (tie by execution, sampled); comparisons mixing integer and fixed-point operands and "
-             "assignment from Python are not exercised here. Known finding: negative operands of the scaling divisions (unsigned DIV).",
+             "kernel-validated Coq ISA model; the stored value must equal the model's (all cases) and exact Fraction arithmetic (inside the precondition); 30% of the cases are with-blocks "
+             "comparing mixed operands (C02_comparisons + C03's comparison model), constants placed next to the other side's value.",
+        note=TB + "Partial: the elaboration model is hand-written (tie by execution, sampled); assignment of fixed-point values from Python is "
+             "covered by C08. Known finding: negative operands of the scaling divisions (unsigned DIV).",
         technique="Coq proof over rationals (QArith) for all operand values + execution of real generated code in a kernel-validated ISA model",
         ref="7/C02"),
     "C04": dict(
